@@ -109,6 +109,16 @@ class GlobalContext:
             Function.hass.async_create_task(dm.start())
         self.dms_delay_start = set()
 
+        #
+        # a module that was imported while this context was not started yet (file load, Jupyter cell)
+        # was loaded unstarted as well: it follows its importer
+        #
+        for ctx_name in self.imports:
+            mod_ctx = self.manager.get(ctx_name) if self.manager else None
+            if mod_ctx is not None and mod_ctx is not self and not mod_ctx.auto_start:
+                mod_ctx.set_auto_start(True)
+                mod_ctx.start()
+
     def stop(self) -> None:
         """Stop all triggers and auto_start."""
         for func in self.triggers:
